@@ -1185,4 +1185,69 @@ theorem verify_nonpositive (tr : Tree) (t : Token) (d : Int) (hd : d ≤ 0) :
   have : d.toNat = 0 := by omega
   simp [verify, rootPath, this, walk]
 
+/-! ### content: what the TREE attaches is checked, whatever the offered objects carry -/
+
+/-- `drain` preserves every predicate on tokens that the content hand-over of the duplicate branch preserves -/
+theorem drain_pred (P : Token → Prop) (hP : ∀ t x, P x → P (absorbOne C t x)) (els unc stack : List Token)
+    (h1 : ∀ e ∈ els, P e) (h2 : ∀ u ∈ unc, P u) (h3 : ∀ r ∈ stack, P r) :
+    (∀ e ∈ (drain C g cap els unc stack).els, P e) ∧ (∀ u ∈ (drain C g cap els unc stack).unc, P u) := by
+  fun_induction drain C g cap els unc stack with
+  | case1 els unc => exact ⟨h1, h2⟩
+  | case2 els unc r rest hv ih => exact ih h1 h2 (fun x hx => h3 x (List.mem_cons_of_mem _ hx))
+  | case3 els unc r rest hv ho ih =>
+    refine ih h1 ?_ (fun x hx => h3 x (List.mem_cons_of_mem _ hx))
+    intro u hu
+    rcases mem_uncAdd cap hu with h | rfl
+    · exact h2 u h
+    · exact h3 u List.mem_cons_self
+  | case4 els unc r rest hv ho hd ih =>
+    refine ih ?_ h2 (fun x hx => h3 x (List.mem_cons_of_mem _ hx))
+    intro e he
+    rw [absorb_eq_map] at he
+    obtain ⟨e0, h0, rfl⟩ := List.mem_map.mp he
+    exact hP r e0 (h1 e0 h0)
+  | case5 els unc r rest hv ho hd ih =>
+    refine ih ?_ ?_ ?_
+    · intro e he
+      rcases List.mem_append.mp he with h | h
+      · exact h1 e h
+      · have : e = r := by simpa using h
+        exact this ▸ h3 r List.mem_cons_self
+    · intro u hu; exact h2 u (mem_othersOf.mp hu).1
+    · intro x hx
+      rcases List.mem_append.mp hx with h | h
+      · exact h2 x (mem_kidsOf.mp h).1
+      · exact h3 x (List.mem_cons_of_mem _ h)
+
+theorem gatherAll_pred (P : Token → Prop) (hP : ∀ t x, P x → P (absorbOne C t x)) (tr : Tree) (ts : List Token)
+    (h1 : ∀ e ∈ tr.els, P e) (h2 : ∀ u ∈ tr.unc, P u) (h3 : ∀ t ∈ ts, P t) :
+    (∀ e ∈ (gatherAll C g cap tr ts).els, P e) ∧ (∀ u ∈ (gatherAll C g cap tr ts).unc, P u) := by
+  induction ts generalizing tr with
+  | nil => exact ⟨h1, h2⟩
+  | cons t ts ih =>
+    simp only [gatherAll, List.foldl_cons]
+    have := drain_pred (C := C) (g := g) (cap := cap) P hP tr.els tr.unc [t] h1 h2
+      (fun r hr => by
+        have : r = t := by simpa using hr
+        exact this ▸ h3 t List.mem_cons_self)
+    exact ih _ this.1 this.2 (fun x hx => h3 x (List.mem_cons_of_mem _ hx))
+
+/-- the hand-over either leaves the stored token as it is or leaves it with bound content -/
+theorem absorbOne_same_or_bound (t x : Token) : absorbOne C t x = x ∨ (absorbOne C t x).contentOk C := by
+  unfold absorbOne
+  split
+  · split
+    · rename_i c _ _
+      unfold Token.receiveContent
+      split
+      · rename_i hh
+        right
+        intro c' hc'
+        simp only [Option.some.injEq] at hc'
+        subst hc'
+        simpa using hh
+      · exact Or.inl rfl
+    · exact Or.inl rfl
+  · exact Or.inl rfl
+
 end Ipv8.C16
